@@ -64,7 +64,7 @@ CHECKS = {
         },
         "runs": [seq("HarnessC01T1", ["c01-end"]), seq("HarnessC01T2", ["c01-end"]), seq("HarnessC01T3L1", ["c01-end"], ["quick"]),
                  seq("HarnessC01T4L1", ["c01-end"], ["quick"]), seq("HarnessC01T5", ["c01-end"]), seq("HarnessC01T6", ["c01-end"]),
-                 seq("HarnessC01T7", ["c01-end"]), seq("HarnessC01T8", ["c01-end"], ["quick"]), seq("HarnessC01T8L2", ["c01-end"], ["thorough"]), seq("HarnessC01T9", ["c01-end"]), seq("HarnessC01T10", ["c01-end"]), conc("HarnessC02History2", ["c02-hist-end"]), conc("HarnessC05Seq", ["c05-end"]), conc("HarnessC04Aliasing", ["c04-aliasing-end"]), seq("HarnessC01Gen2", ["c01-gen-end"]),
+                 seq("HarnessC01T7", ["c01-end"]), seq("HarnessC01T8", ["c01-end"], ["quick"]), seq("HarnessC01T8L2", ["c01-end"], ["thorough"], maxpaths=600000), seq("HarnessC01T9", ["c01-end"]), seq("HarnessC01T10", ["c01-end"]), conc("HarnessC02History2", ["c02-hist-end"]), conc("HarnessC05Seq", ["c05-end"]), conc("HarnessC04Aliasing", ["c04-aliasing-end"]), seq("HarnessC01Gen2", ["c01-gen-end"]),
                  seq("HarnessC01Gen2L2", ["c01-gen-end"], ["thorough"], maxpaths=2000000, timeout="3000s"), seq("HarnessC01Gen3", ["c01-gen-end"], ["thorough"], maxpaths=3000000, timeout="3000s"), seq("HarnessC01T3", ["c01-end"], ["thorough"]), seq("HarnessC01T4", ["c01-end"], ["thorough"]),
                  seq("HarnessC01T2L3", ["c01-end"], ["thorough"]), seq("HarnessC01T7L3", ["c01-end"], ["thorough"])],
         "bounds": {"quick": "8 types (scalars/durations, skipped fields in every position, nested+pointer+embedded structs, slices/maps/arrays, user pointers incl. two leaves aliasing one variable in the defaults, text-unmarshalable value+pointer, deep nesting, pointer-bearing arrays in slices / struct map keys holding pointers / pointer to an all-nilable struct); 2 layers (1 for the two biggest types); slices len<=2, maps <=1 entry; all scalar values; generated family: all 19+361 types of 1-2 fields over {int8,string,[]int16,map,*int,struct,*struct,[2]uint8,dials:\"-\",chan,func,text-unmarshalable,*all-nilable struct,[][1]*struct,map[struct-with-pointer]int8,map of maps,text-unmarshalable with reference fields,unmanaged map,*chan}, 1 layer; T9 (shared inner maps, unmanaged reference fields), T10 (shadowing skipped field, text-unmarshalable with references); two-watcher precedence (C05Seq) and the all-nilable-pointee aliasing scenario",
@@ -79,9 +79,9 @@ CHECKS = {
             "design_ref": "DESIGN.md §4 C02",
         },
         "runs": [conc("HarnessC02History2", ["c02-hist-end"]), seq("HarnessC01T4L1", ["c01-end"], ["quick"]), seq("HarnessC01T3L1", ["c01-end"], ["quick"]),
-                 seq("HarnessC01T6", ["c01-end"]), seq("HarnessC01T5", ["c01-end"]), seq("HarnessC01T8", ["c01-end"], ["quick"]), seq("HarnessC01T8L2", ["c01-end"], ["thorough"]), seq("HarnessC01T9", ["c01-end"]), seq("HarnessC01T10", ["c01-end"]), conc("HarnessC02History3", ["c02-hist-end"], ["thorough"]),
+                 seq("HarnessC01T6", ["c01-end"]), seq("HarnessC01T5", ["c01-end"]), seq("HarnessC01T8", ["c01-end"], ["quick"]), seq("HarnessC01T8L2", ["c01-end"], ["thorough"], maxpaths=600000), seq("HarnessC01T9", ["c01-end"]), seq("HarnessC01T10", ["c01-end"]), conc("HarnessC02History3", ["c02-hist-end"], ["thorough"]),
                  seq("HarnessC01T4", ["c01-end"], ["thorough"]), seq("HarnessC01T3", ["c01-end"], ["thorough"])],
-        "bounds": {"quick": "corpus types T3,T4,T5,T6,T8 with 1-2 layers (identity sets include map keys); 2 re-stacks with symbolic set/unset of a nested-pointer leaf and a scalar; T9, T10; every version is written through by its consumer before the next re-stack",
+        "bounds": {"quick": "corpus types T3,T4,T5,T6,T8 with 1-2 layers (identity sets include map keys); 2 re-stacks with symbolic set/unset of a nested-pointer leaf and a scalar; T9, T10; every version is written through by its consumer before the next re-stack; defaults with an empty map held in an interface and a map only the defaults set",
                    "thorough": "2 layers on T3/T4; 3 re-stacks"},
         "outside": "other types; longer histories",
         "assumptions": REFLECT_ASSUME,
@@ -122,7 +122,7 @@ CHECKS = {
         },
         "runs": [conc("HarnessC05Quick", ["c05-end"]), conc("HarnessC05Seq", ["c05-end"]), conc("HarnessC05AfterDone", ["c05-done-end"]), conc("HarnessC05SameObject", ["c05-sameobject-end"]), conc("HarnessC05RejectAccept", ["c05-end"]), conc("HarnessC07Quick", ["c07-end"]),
                  conc("HarnessC05Thorough", ["c05-end"], ["thorough"], maxpaths=1000000, timeout="3000s"), conc("HarnessC05Three", ["c05-end"], ["thorough"], maxpaths=1000000, timeout="3000s")],
-        "bounds": {"quick": "2 sources; 1+1 reports with 2 concurrent reads, 2+1 reports without reader; a nested pointer section set or not by the first update; all values symbolic; all schedules; reject-then-accept serials, one watcher Done while the other reports, value filled in by Verify, caller writing to its own defaults",
+        "bounds": {"quick": "2 sources; 1+1 reports with 2 concurrent reads, 2+1 reports without reader; a nested pointer section set or not by the first update; all values symbolic; all schedules; reject-then-accept serials, one watcher Done while the other reports, value filled in by Verify, caller writing to its own defaults; one value object changed in place and reported again",
                    "thorough": "2+2 reports with 2 reads; 3+1 reports with 1 read"},
         "outside": "longer histories; 2^64 serial wrap",
         "assumptions": CONC_ASSUME,
@@ -178,13 +178,13 @@ CHECKS = {
         "runs": [conc("HarnessC09Quick", ["c09-end"]), conc("HarnessC09NoWatcher", ["c09-end"]), conc("HarnessC09Race", ["c09-race-end"]), conc("HarnessC09EnableCancel", ["c09-enable-cancel-end"]), conc("HarnessC08StackError", ["c08-stackerr-end"]), conc("HarnessC09NoVerify", ["c09-noverify-end"]), conc("HarnessC06DrainOnCancel", ["c06-drain-end"]),
                  {"entry": M + "/ez.HarnessC18NoWatch", "pkgs": EZP, "must_reach": ["c18-end", "c18-verify-error", "c18-file-error"], "instrument": [M, M + "/sourcewrap", M + "/ez"], "validate": 0},
                  conc("HarnessC09Thorough", ["c09-end"], ["thorough"])],
-        "bounds": {"quick": "3 events; 4 Delay x suppress combinations plus SkipInitialVerification with/without suppress; initial validity symbolic; an EnableVerification call abandoned at an arbitrary moment, then retried; Verify fails for an external reason during EnableVerification calls that are documented not to verify; config type without Verify, stacking failure per suppression rule, abandoned enable (before and after a successful one), drain, ez with a watching flag source and file watching off", "thorough": "4 events"},
+        "bounds": {"quick": "3 events; 4 Delay x suppress combinations plus SkipInitialVerification with/without suppress; initial validity symbolic; an EnableVerification call abandoned at an arbitrary moment, then retried; Verify fails for an external reason during EnableVerification calls that are documented not to verify; config type without Verify, stacking failure per suppression rule, abandoned enable (before and after a successful one), drain, ez with a watching flag source and file watching off; Verify failing for an external reason on the no-watcher fast path, then a retry", "thorough": "4 events"},
         "outside": "longer event sequences",
         "assumptions": CONC_ASSUME,
     },
     "C11": {
         "claim": {'text': 'bounded model checking of the real environment source (alias, flatten, tag-reformat, tag-copy, string-cast manglers, structtag, caseconversion, parse): every subset of the 12 variables of a config type with nested, pointer, embedded, tagged, dialsenv-named, slice and duration leaves, integer values symbolic over all of int64/uint64: a leaf is set exactly when its documented variable is present, with the parsed value, decoy names are never read, out-of-range values are errors, and a second Value call forgets removed variables', 'note': 'os.LookupEnv is an intrinsic reading the harness table (natively os.Setenv); expected variable names are written by hand from the documented rule (embedded structs contribute no name component)', 'design_ref': 'DESIGN.md §4 C11'},
-        "bounds": {'quick': '1 type, 12 variables, all subsets, no prefix; a second type with initialism/plural-initialism names, decoys, and a map variable with bare keys (1 symbolic payload byte); generated family (<=2, thorough 3, fields over 11 shapes, all subsets); names with non-ASCII letters and an embedded named scalar; list element with a space, complex128, float32 max, value containing =', 'thorough': 'plus prefix APP'},
+        "bounds": {'quick': '1 type, 12 variables, all subsets, no prefix; a second type with initialism/plural-initialism names, decoys, and a map variable with bare keys (1 symbolic payload byte); generated family (<=2, thorough 3, fields over 11 shapes, all subsets); names with non-ASCII letters and an embedded named scalar; list element with a space, complex128, float32 max, value containing =; slice of a named string type; one prefixed Source read twice', 'thorough': 'plus prefix APP'},
         "outside": 'other types; quoting-heavy string values (C15 covers the parsers)',
         "assumptions": REFLECT_ASSUME,
         "runs": [
@@ -198,7 +198,7 @@ CHECKS = {
     },
     "C12": {
         "claim": {'text': "bounded model checking of the real standard-library flag source with the real flag package interpreted from source: advertised defaults equal the template's (symbolic) values, exactly the flags on the command line set their leaves (every subset of 8 scalar flags, every value, every template default), out-of-range values are errors, repeated slice/map flags accumulate, float32 overflow is an error", 'note': 'standard-library half only: the pflag source (spf13/pflag, encoding/csv) is outside; flag usage printing is stubbed; float flags use concrete probes', 'design_ref': 'DESIGN.md §4 C12'},
-        "bounds": {'quick': 'scalar flags: all subsets x all values; collection flags: absent/once/twice; 2-level nesting, hand-built Set with a pre-registered flag and no template (10 flags, all subsets, complex and text-unmarshaler leaves); generated family through flag and pflag; pflag: every integer width with symbolic value; nil-default set/map flags repeated, complex64 range, unsigned-slice default >= 2^63, user pointer leaves', 'thorough': 'full product of both'},
+        "bounds": {'quick': 'scalar flags: all subsets x all values; collection flags: absent/once/twice; 2-level nesting, hand-built Set with a pre-registered flag and no template (10 flags, all subsets, complex and text-unmarshaler leaves); generated family through flag and pflag; pflag: every integer width with symbolic value; nil-default set/map flags repeated, complex64 range, unsigned-slice default >= 2^63, user pointer leaves; time.Time default with nanoseconds; integer slice flags given the empty list', 'thorough': 'full product of both'},
         "outside": 'pflag; custom NameConfig; time flags',
         "assumptions": REFLECT_ASSUME,
         "runs": [
@@ -216,7 +216,7 @@ CHECKS = {
     },
     "C18": {
         "claim": {'text': 'bounded model checking of the real ez entry point with the real Blank, environment source, transforming decoder and dials core under all interleavings: config path from default/env/flag/none, leaf A from every subset of {file, env, flag}, leaf B from {file, flag}, invalid-by-file / invalid-by-flag / valid-only-with-file, failing file source, watch on/off: first view = defaults<file<env<flags, Verify only ever sees the fully stacked config, its failure is the returned error, Events and global callbacks stay silent, a later file change re-stacks under the same precedence', 'note': 'ez.fileSource is stubbed symbolically by a source that hands the real (alias/set-slice wrapped) decoder chain an empty reader; natively the real file source reads a temp file; params.FlagSource is a harness source (the real flag source is C12); the harness decoder ignores the bytes', 'design_ref': 'DESIGN.md §4 C18'},
-        "bounds": {'quick': '2 leaves, 4 path sources, 3 validity modes, file error, watch and no-watch; file keys matched by re-cased dials tag with FileFieldNameEncoder set: 2 aliased leaves x {neither, primary, alias, both}, environment on top; all schedules; set leaf (one member / explicitly empty / both names), nested leaf from the environment only, watching flag source with file watching off', 'thorough': 'same'},
+        "bounds": {'quick': '2 leaves, 4 path sources, 3 validity modes, file error, watch and no-watch; file keys matched by re-cased dials tag with FileFieldNameEncoder set: 2 aliased leaves x {neither, primary, alias, both}, environment on top; all schedules; set leaf (one member / explicitly empty / both names), nested leaf from the environment only, watching flag source with file watching off; untagged leaf ending in a pluralised initialism set by the environment', 'thorough': 'same'},
         "outside": 'the four real file formats (C13); flags registered on flag.CommandLine by an earlier ez call',
         "assumptions": CONC_ASSUME,
         "runs": [
@@ -227,7 +227,7 @@ CHECKS = {
     },
     "C10": {
         "claim": {'text': 'bounded model checking of the real transformer and manglers: translate, write a symbolic subset of the translated fields, reverse: set-to-slice at three depths (nil/empty/elements), flatten (every subset of 9 flattened leaves incl. nested, pointer-nested, embedded, trailing), and five mangler lists (anonymous-flatten, text-unmarshaler, alias+set-slice, and two combinations): result has exactly the original type, every original leaf holds what was written to its counterpart, everything else is unset', 'note': 'expected translated field names are written by hand in the harness; the alias, tag-copy, tag-reformat, string-cast manglers are exercised in their shipped chains by C11/C12/C14/C20; type substitution (durations for JSON/Cue) is not covered', 'design_ref': 'DESIGN.md §4 C10'},
-        "bounds": {'quick': '1 config type with 9 fields (scalars, set, nested, pointer-nested, embedded, text-unmarshalable, duration, slice); all subsets of written fields; 7 mangler lists; a second type with two levels of embedding, a nested struct and slices of structs (nil/empty/1 element) inside and outside the embedded struct, 4 mangler lists; generated family under 5 mangler lists; type substitution (incl. pointers to collections); element structs with unexported/embedded parts, slices of text-unmarshalable structs, a Transformer used twice; string casting of exact text', 'thorough': 'same'},
+        "bounds": {'quick': '1 config type with 9 fields (scalars, set, nested, pointer-nested, embedded, text-unmarshalable, duration, slice); all subsets of written fields; 7 mangler lists; a second type with two levels of embedding, a nested struct and slices of structs (nil/empty/1 element) inside and outside the embedded struct, 4 mangler lists; generated family under 5 mangler lists; type substitution (incl. pointers to collections); element structs with unexported/embedded parts, slices of text-unmarshalable structs, a Transformer used twice; string casting of exact text and of map text with a value-less key; anonymous flatten over an embedded struct whose nested struct embeds another', 'thorough': 'same'},
         "outside": 'other config types; random sub-chains beyond the listed ones',
         "assumptions": REFLECT_ASSUME,
         "runs": [
@@ -244,7 +244,7 @@ CHECKS = {
     },
     "C14": {
         "claim": {'text': 'bounded model checking of aliases through the real environment source: 5 aliased fields (top-level string, nested leaf, slice, struct-level alias on a pointer struct, dialsenv/dialsenvalias) x all four neither/primary/alias/both patterns (1024 combinations) plus an unaliased field: either name sets the field, neither leaves it unset, both is an error, bare inner names are never read', 'note': 'environment source only; the flag sources use the same AliasMangler (registration chain covered by C12 without alias tags); file decoders are outside (C13)', 'design_ref': 'DESIGN.md §4 C14'},
-        "bounds": {'quick': '1 type, 5 aliased fields at depth 0-1, all pattern combinations; 3 aliased fields whose primary name is implicit; the ez file chain with a key-matching decoder (2 aliased leaves x 4 patterns); flag and pflag sources (5 aliased leaves x 4 patterns); aliased leaf inside an aliased struct under each of 4 names; empty-valued aliased integer slice; generated family through env', 'thorough': 'same'},
+        "bounds": {'quick': '1 type, 5 aliased fields at depth 0-1, all pattern combinations; 3 aliased fields whose primary name is implicit; the ez file chain with a key-matching decoder (2 aliased leaves x 4 patterns); flag and pflag sources (5 aliased leaves x 4 patterns); aliased leaf inside an aliased struct under each of 4 names; empty-valued aliased integer slice; generated family through env; one env Source read 3 times while a field moves between its names; aliased list of sections (one / empty under the alias / both)', 'thorough': 'same'},
         "outside": 'flag/pflag sources with alias tags; the real file decoders; the both-names error text is checked natively only',
         "assumptions": REFLECT_ASSUME,
         "runs": [
@@ -278,7 +278,7 @@ CHECKS = {
             {"entry": M + "/sources/flag/flaghelper.HarnessC15HelperComplex", "pkgs": HELP, "must_reach": ["c15-helper-complex-end"], "loopcap": 400},
             {"entry": M + "/sources/flag/flaghelper.HarnessC15HelperStrings2", "pkgs": HELP, "must_reach": ["c15-helper-strings-end"], "loopcap": 400, "tiers": ["thorough"]},
         ],
-        "bounds": {"quick": "11 integral-slice instantiations and 12 parse.String integer types x 5 literal styles x paddings; value = any int64/uint64; 1-2 elements; float/complex canonical values incl. infinities (concrete), empty strings/keys/slices, integer literals inside maps (concrete probes)",
+        "bounds": {"quick": "11 integral-slice instantiations and 12 parse.String integer types x 5 literal styles x paddings; value = any int64/uint64; 1-2 elements; float/complex canonical values incl. infinities (concrete), empty strings/keys/slices, integer literals inside maps (concrete probes); complex helper print/parse round trip (concrete parts beyond float32 precision and range)",
                    "thorough": "same plus structure harnesses"},
         "outside": "floats/complex/durations; more than 2 elements; literals wider than 64 bits other than the 2^64 probe",
         "assumptions": COMMON_ASSUME + ["strconv.ParseInt/ParseUint/FormatInt/FormatUint contract stubs on opaque literals (concrete and symbolic-byte strings run the real strconv)"],
@@ -361,7 +361,7 @@ CHECKS = {
             {"entry": M + "/sourcewrap.HarnessC20BlankConcurrent", "pkgs": SW, "must_reach": ["c20-blank-conc-end"], "instrument": [M, M + "/sourcewrap"], "validate": 0},
             {"entry": M + "/sourcewrap.HarnessC20Flatten", "pkgs": ENVP, "must_reach": ["c20-flatten-end"], "instrument": [M, M + "/sourcewrap"], "validate": 0},
         ],
-        "bounds": {"quick": "1 wrapped source (value- or pointer-returning), 3 updates, all int64 values; a decoder shared by 2 config types; Blank: 3 operations, SetSource contexts, SetSource after Done; slices of structs unset/empty/1 element initially and on update through a recursing mangler; anonymous-flatten wrapper, overlapping SetSource calls, eager inner watcher, element structs with embedded/unexported parts", "thorough": "same"},
+        "bounds": {"quick": "1 wrapped source (value- or pointer-returning), 3 updates, all int64 values; a decoder shared by 2 config types; Blank: 3 operations, SetSource contexts, SetSource after Done; slices of structs unset/empty/1 element initially and on update through a recursing mangler; anonymous-flatten wrapper, overlapping SetSource calls, eager inner watcher, element structs with embedded/unexported parts; SetSource(nil); an inner value that cannot be reverse-translated", "thorough": "same"},
         "outside": "other mangler lists on the watch path",
         "assumptions": CONC_ASSUME,
     },
